@@ -6,7 +6,7 @@ from models import curve, selfcheck
 PROPERTY_ID = "C13"
 RULE = ("one-step programs: seeds {00.., FF.., 3 RFC 8032 seeds, 6 patterns} x messages (every length 0..=300 for two seeds; boundary lengths "
         "{0,1,31,32,33,63,64,65,95,96,97,111,112,127,128,129,255,256,257,1023,1024} for all seeds): keypair (both halves, layout, accessors), signature, "
-        "signature_extended(clamp(SHA512(seed))) identical, extended_to_public, exchange == X25519(hashed secret, (1+y)/(1-y)); oracle = python RFC 8032; "
+        "signature_extended(clamp(SHA512(seed))) identical, extended_to_public, exchange == X25519(hashed secret, (1+y)/(1-y)) for honest public keys and for small-order / non-canonical / y=1 / non-point strings; oracle = python RFC 8032; "
         "distinct = program text")
 ASSUMPTIONS = ["python RFC 8032 model (validated on RFC 8032 7.1 tests 1-3 and 15 OpenSSL signatures)", "seeds and message content from the enumerated alphabet"]
 
@@ -43,6 +43,11 @@ def seed_cases(si, tier):
     for sj, other in enumerate(sd):
         opub = curve.ed_keypair(other)[1]
         out.append((["ed_exchange %s %s" % (H(opub), H(seed))], [curve.ed_exchange(opub, seed).hex()], None))
+    # exchange with adversarial public keys as well: small-order points, non-canonical encodings, y = 1 (division by zero in the map), non-points
+    if si in (5, 0, 1):
+        from .c14 import special_points
+        for e in special_points():
+            out.append((["ed_exchange %s %s" % (H(e), H(seed))], [curve.ed_exchange(e, seed).hex()], None))
     lens = list(BOUNDARY)
     if si in (5, 3) or tier == "thorough":
         lens = sorted(set(lens) | set(range(0, 301)))
